@@ -48,6 +48,11 @@ theorem C30_cfg_real : Gen.diagCfg = realCfg := by decide
 
 theorem C30_handler_order : Gen.diagHandlerOrder = true := by decide
 
+/-- a `didChangeWatchedFiles` batch is, as in the model, one `edit` event per file: every file gets its own task and
+token (`add_files_diagnostic_task` loops over `add_diagnostic_task`); a token shared by the batch would let a later
+edit of one file cancel the diagnosis of all the others -/
+theorem C30_batch_per_file_token : Gen.diagBatchPerFileToken = true := by decide
+
 /-- **C30 for the configuration found in the source.** -/
 theorem C30_server_last_publish_current (es : List Event) (sched : List Label) (s : St)
     (hrun : run Gen.diagCfg (init es) sched = some s) (hq : quiescent s) (u : Uri) : Settled s u := by
